@@ -1,6 +1,8 @@
 """C14 — Blosc block decompression is independent of how the stream is chunked.
 
-Tie: [C] correspondence.  The REAL BloscCompressor.decompress is driven with an iterator that snapshots the reader's
+Ties: [T] tools/gen/c14.py regenerates BloscCompressor.decompress as a Gallina state machine (C14/Gen.v) on every run and
+C14/TieGen.v proves it equal to the hand-written model on every well-formed state and for the whole call, so the theorems are
+also about the regenerated text (PropertiesGen.v); compress stays hand-modelled.  [C] correspondence.  The REAL BloscCompressor.decompress is driven with an iterator that snapshots the reader's
 local variables (_size, _pos, _buffer[:_pos], _partial_len, bytesout) between read chunks; the snapshots, the output
 bytes and the returned length are compared with the hand-written model of coq/theories/C14/Model.v evaluated by
 vm_compute on the same compressed bytes (the codec is handed to Coq as a finite table frame -> decoded bytes, or, for the
@@ -12,8 +14,9 @@ import struct
 from vlib import coq, coqio
 
 PID = 'C14'
-GEN = None
+GEN = 'gen.c14'
 DEPS = ()
+STATEMENT_FILES = ('Properties.v', 'PropertiesGen.v')
 IMPORTS = 'From Abacus.C14 Require Import Spec Model Run.'
 ASSUMPTIONS = [
     'the Blosc codec is abstract: any pair C, D with D (C x) = x and 0 < |C x| < 2^32 for inputs up to the compression block '
@@ -23,8 +26,9 @@ ASSUMPTIONS = [
     'read chunks are contiguous byte buffers (the code rejects others); timing counters are not modelled',
 ]
 MANIFEST = {
-    'technique': 'Coq proof about a hand-written model of the de-framing state machine over an abstract codec; '
-                 'state-by-state differential run against the real decompress/compress',
+    'technique': 'Coq proof about the de-framing state machine over an abstract codec: regenerated from decompress by a dedicated '
+                 'fail-closed translator and proved equal to a hand-written model; state-by-state differential run against the real '
+                 'decompress/compress',
     'text': 'coq/theories/C14 models BloscCompressor.decompress branch by branch (feed = one `for block` body with the `while '
             'len(block)` loop on fuel) and BloscCompressor.compress, over an abstract codec (Section variables C, D).  Proved for '
             'all inputs: feed_refines_parse / decompress_refines_parse (the reader state after any list of read chunks is the '
@@ -34,11 +38,17 @@ MANIFEST = {
             'roundtrip (every chunking of the blocks compress yields decompresses to the payload and returns its length, for every '
             'payload, item size <= block size), fuel_sufficient, parse_frame (the automaton means `be32 length ++ frame`), '
             'zero_length_frame (a prefix announcing 0 decodes the empty frame at once, in every chunking) and '
-            'compress_rejects_small_block.  Tie [C]: the real decompress is run on streams produced by the real compress (zlib- '
+            'compress_rejects_small_block.  Tie [T] (decompress): tools/gen/c14.py translates the method on every run - initial '
+            'locals, the for/while skeleton and the body of one `while len(block)` iteration statement by statement (vocabulary in '
+            'the generator\'s docstring; anything else fails closed) - into Gen.gen_decompress; regenerated_iteration_is_model / '
+            'regenerated_reader_is_model prove it equal to the model, and regenerated_refines_parse / '
+            'regenerated_chunking_independent / regenerated_roundtrip restate the property about the regenerated text '
+            '(PropertiesGen.v).  Tie [C]: the real decompress is run on streams produced by the real compress (zlib- '
             'and identity-framed stub codec) and on truncated / malformed / overrunning streams under many chunkings; the local '
             'variables of the real reader are snapshotted between chunks and compared with the model state, together with the '
             'output bytes and returned length; a whole-stream reference de-framer in the harness judges the property itself.',
-    'note': 'Trusted: Coq kernel, the hand-written Model.v (validated state by state against the implementation on every run), '
+    'note': 'Trusted: Coq kernel, the translator tools/gen/c14.py (its output is proved equal to Model.v, which is validated state by '
+            'state against the implementation on every run; compress is hand-modelled only), '
             'the stub codec standing in for Blosc (external code = Section variables C, D with explicit hypotheses).  The raw '
             'pointer write is modelled as Oob when a frame decodes to more bytes than remain in `out`: the real code (and asdf, '
             'which checks the length only afterwards) has no such check, so a corrupt file can overrun the buffer; this is outside '
